@@ -359,6 +359,54 @@ def run(ctx):
                     bad = all(casts) or other_const
                     ctx.inst("C01.R6", "%s#%s[%d]" % (n.replace(CORE, ""), t["msg"], k), not bad, "checked %s on a value cast from a user number (saturates at the type's bounds): overflow panics in the dev profile and wraps in release" % t["msg"], fn.loc(b))
                     k += 1
+    # unsigned subtraction of a quantity computed from a float (a digit count, a magnitude): nothing bounds it below the minuend unless
+    # the two are compared first
+    for n in local:
+        fn = M.Fn(cg.fns[n], n)
+        k = 0
+        for b in range(fn.n):
+            t = fn.term(b)
+            if not (t["k"] == "assert" and t["msg"] == "Overflow:Sub" and not t["sp"][5]):
+                continue
+            tys = []
+            for o in t["ops"]:
+                pl = fn.op_place(o)
+                tys.append(((fn.f.get("locals") or [])[pl["l"]].get("ty") if pl is not None and pl["l"] < len(fn.f.get("locals") or []) else None))
+            if not tys or tys[0] not in ("usize", "u64", "u32", "u16", "u8"):
+                continue
+            sub_roots = fn.trace(t["ops"][1])
+
+            def float_derived(roots, depth=0):
+                for r in roots:
+                    if any(isinstance(p, str) and p.startswith("as:") and p.endswith(":FloatToInt") for p in (r[2] if r[0] in ("param", "local") else r[3] if r[0] in ("call", "agg") else [])):
+                        return True
+                    if r[0] in ("binop", "unop") and depth < 6 and len(r) >= 4:
+                        try:
+                            rv = fn.blocks[r[2]]["s"][r[3]]["rv"]
+                        except (IndexError, KeyError, TypeError):
+                            continue
+                        for key_ in ("a", "b", "op_", "e"):
+                            o_ = rv.get(key_) if isinstance(rv.get(key_), dict) else None
+                            if o_ is not None and float_derived(fn.trace(o_), depth + 1):
+                                return True
+                        if rv.get("k") == "unop" and isinstance(rv.get("op"), dict) and float_derived(fn.trace(rv["op"]), depth + 1):
+                            return True
+                return False
+            from_float = float_derived(sub_roots)
+            if not from_float:
+                continue
+            # a comparison of the same two operands that dominates the subtraction
+            guarded = False
+            for bb in range(fn.n):
+                for st_ in fn.blocks[bb]["s"]:
+                    if st_["k"] == "assign" and st_["rv"]["k"] == "binop" and st_["rv"]["op"] in ("Ge", "Gt", "Le", "Lt") and fn.dominates(bb, b):
+                        ra, rb = fn.trace(st_["rv"]["a"]), fn.trace(st_["rv"]["b"])
+                        ma, mb = fn.trace(t["ops"][0]), sub_roots
+                        if (M_root_eq(ra, ma) and M_root_eq(rb, mb)) or (M_root_eq(ra, mb) and M_root_eq(rb, ma)):
+                            guarded = True
+            n6 += 1
+            ctx.inst("C01.R6", "%s#unsigned-minus-float-derived[%d]" % (n.replace(CORE, ""), k), guarded, "unsigned subtraction whose subtrahend is computed from a float (%s); a comparison of the two operands dominates it: %s (without one it underflows for large magnitudes: overflow panic in the dev profile, an absurd width / precision in release)" % ([r[:2] for r in sub_roots][:2], guarded), fn.loc(b))
+            k += 1
     ctx.inst("C01.R6", "scan", True, "%d checked integer operations on values cast from user numbers" % n6, None)
 
     # ---------------- R8 span / source pairing
@@ -583,6 +631,7 @@ def run(ctx):
     from rules import panics
     panics.explicit_panics(ctx, "C01.R14", [core, cli, wasm], G)
     panics.pratt_nonempty(ctx, "C01.R15", [core, cli, wasm], G)
+    panics.constant_indexes(ctx, "C01.R16", [core, cli, wasm], skip_fns=(BCALL,))
 
     # ---------------- R10 table lookups that `expect`
     ctx.rule("C01.R10", "operator_info's expect is discharged: every BinaryOp variant has exactly one row in PRECEDENCE_TABLE", floor=26)
